@@ -194,6 +194,9 @@ theorem C03_table_eq_fields :
 theorem C03_table_surface :
     (∀ r ∈ Gen.readers, r.1 ∈ modelledEntries ∨ r.1 ∈ outOfScope.map (·.1)) ∧
     (∀ n ∈ modelledEntries ++ outOfScope.map (·.1), n = "__eq__" ∨ n ∈ Gen.readers.map (·.1)) ∧
+    -- … in exactly one of the two lists, each name once
+    (∀ n ∈ modelledEntries, n ∉ outOfScope.map (·.1)) ∧ modelledEntries.Nodup ∧ (outOfScope.map (·.1)).Nodup ∧
+    (Gen.readers.map (·.1)).Nodup ∧
     Gen.properties = ["ids", "parameters", "variables", "derived", "reactions"] ∧
     Gen.privates = ["_create_cache", "_insert_id", "_check_new_ids", "_check_known_names", "_remove_id",
       "_scaled_value", "_get_args", "_get_args_time_course", "_get_right_hand_side"] ∧
@@ -202,7 +205,7 @@ theorem C03_table_surface :
     Gen.liveRefs = [("get_raw_parameters", "_parameters"), ("get_raw_variables", "_variables"),
       ("get_raw_derived", "_derived"), ("get_derived_variables", "_derived"), ("get_derived_parameters", "_derived"),
       ("get_raw_reactions", "_reactions"), ("get_raw_readouts", "_readouts"), ("get_raw_surrogates", "_surrogates")] := by
-  refine ⟨by decide, by decide, rfl, rfl, rfl⟩
+  refine ⟨by decide, by decide, by decide, by decide, by decide, by decide, rfl, rfl, rfl⟩
 
 /-- The model's classification of the query forms agrees with the source: a form the model answers from the cache
     stands for a method that does reach `self._cache`; a form the model answers WITHOUT a cache stands for a method
